@@ -246,30 +246,44 @@ func timeoutFromHeaders(headers metadata.MD) (time.Duration, bool) {
 		return 0, false
 	}
 	timeoutStr := vals[len(vals)-1]
-	if len(timeoutStr) < 2 {
+	// Per the gRPC wire specification the value is 1 to 8 ASCII digits
+	// followed by a one-character unit.
+	if len(timeoutStr) < 2 || len(timeoutStr) > 9 {
 		return 0, false
 	}
-	timeout, err := strconv.Atoi(timeoutStr[:len(timeoutStr)-1])
+	digits := timeoutStr[:len(timeoutStr)-1]
+	for i := 0; i < len(digits); i++ {
+		if digits[i] < '0' || digits[i] > '9' {
+			// strconv would accept a sign
+			return 0, false
+		}
+	}
+	timeout, err := strconv.ParseInt(digits, 10, 64)
 	if err != nil {
 		return 0, false
 	}
-	duration := time.Duration(timeout)
+	var unit time.Duration
 	switch timeoutStr[len(timeoutStr)-1] {
 	case 'H':
-		return duration * time.Hour, true
+		unit = time.Hour
 	case 'M':
-		return duration * time.Minute, true
+		unit = time.Minute
 	case 'S':
-		return duration * time.Second, true
+		unit = time.Second
 	case 'm':
-		return duration * time.Millisecond, true
+		unit = time.Millisecond
 	case 'u':
-		return duration * time.Microsecond, true
+		unit = time.Microsecond
 	case 'n':
-		return duration * time.Nanosecond, true
+		unit = time.Nanosecond
 	default:
 		return 0, false
 	}
+	if timeout > math.MaxInt64/int64(unit) {
+		// saturate instead of wrapping around (to a deadline in the past)
+		return time.Duration(math.MaxInt64), true
+	}
+	return time.Duration(timeout) * unit, true
 }
 
 func (s *tunnelServer) getStream(streamID int64) (*tunnelServerStream, error) {
